@@ -5,6 +5,7 @@ Spec::
     {'name': 'dist-name', 'version': '1.0', 'package': 'pk.sub',
      'modules': {'pipeline': 'pipe', 'source': 'pk.sub.deep.src'},   # non-conventional component module paths
      'threshold': 7, 'columns': ['a', 'c'], 'label': 'b',            # the source definition
+     'helper': False,                                                # threshold kept in a sibling helper module
      'marks': ['x', 'y'],                                            # the pipeline definition (operator chain)
      'evaluation': 'tag' | None,                                     # evaluation component (absent if None)
      'data': ['pk/sub/data.txt']}                                    # non-python files (make a zip non zip-safe)
@@ -31,7 +32,7 @@ class Verif(dsl.Schema):
 SOURCE = '''
 from forml import project
 from {package} import {schema} as schema
-
+{helper}
 T = schema.Verif
 INSTANCE = project.Source.query(T.select({columns}).where(T.a > {threshold}), T.{label})
 project.setup(INSTANCE)
@@ -83,6 +84,7 @@ project.setup(INSTANCE)
 '''
 COMPONENTS = ('source', 'pipeline', 'evaluation')
 SCHEMA_MODULE = 'verifschema'
+HELPER_MODULE = 'verifconst'
 
 
 def module_name(spec: dict, component: str) -> str:
@@ -116,10 +118,14 @@ def generate(spec: dict, root: str) -> str:
     _write(root, package, '', is_package=True)
     _write(root, f'{package}.{SCHEMA_MODULE}', SCHEMA)
     columns = ', '.join(f'T.{c}' for c in spec['columns'])
+    helper, threshold = '', spec['threshold']
+    if spec.get('helper'):
+        _write(root, f'{package}.{HELPER_MODULE}', f'K = {threshold}\n')
+        helper, threshold = f'from {package} import {HELPER_MODULE}', f'{HELPER_MODULE}.K'
     _write(
         root,
         module_name(spec, 'source'),
-        SOURCE.format(package=package, schema=SCHEMA_MODULE, columns=columns, threshold=spec['threshold'], label=spec['label']),
+        SOURCE.format(package=package, schema=SCHEMA_MODULE, helper=helper, columns=columns, threshold=threshold, label=spec['label']),
     )
     chain = ' >> '.join(f'Mark({m!r})' for m in spec['marks'])
     _write(root, module_name(spec, 'pipeline'), PIPELINE.format(chain=chain))
